@@ -313,5 +313,42 @@ class StatesPart(Part):
         return ipgraph.explore_cfg(cfg, {"c01"})
 
 
+class LongHistory(Part):
+    name = "pairs_across_a_long_history"
+    desc = "one long request history per configuration (horizon): images taken early and late still preserve common prefixes"
+
+    def __init__(self, tier, seed):
+        self.tier, self.seed = tier, seed
+
+    def cases(self):
+        n = 48000 if self.tier == "quick" else 200000
+        return [{"fam": "4", "B": B, "env": ["md5", "saltForTest"], "n": n, "prefixes": pl}
+                for B in (0, 8) for pl in (None, [])] + [{"fam": "6", "B": 8, "env": ["md5", "saltForTest"], "n": n // 8}]
+
+    def run(self, cfg):
+        res = Res()
+        L = ipdom.width(cfg)
+        W = (ipdom.v4_window(self.seed, 3) if cfg["fam"] == "4" else ipdom.v6_window(self.seed, 3)[::4])
+        an = ipdom.make(cfg)
+        half = len(W) // 2
+        early = [(a, an.anonymize(a)) for a in W[:half]]
+        for a in ipdom.scattered(self.seed, L, cfg["n"]):
+            an.anonymize(a)
+            res.transitions += 1
+        late = [(a, an.anonymize(a)) for a in W[half:]] + [(a, an.anonymize(a)) for a in W[:half:5]]
+        res.evals += len(early) + len(late)
+        bad = check_map(early + late, L)
+        if bad:
+            res.violation("cpl-not-preserved-across-long-history|" + cfg["fam"],
+                          "cfg %r, images taken before and after %d other requests: %s" % (
+                              {k: v for k, v in cfg.items() if k != "n"}, cfg["n"], bad[1]), cfg)
+        res.states = 1
+        res.nt((cfg["fam"], cfg["B"], repr(cfg.get("prefixes"))))
+        res.out(cfg["B"])
+        res.samples.append({"cfg": cfg, "window": len(W)})
+        return res
+
+
 def parts(tier, seed):
-    return [SmallWidth(tier, seed), FullWidth(tier, seed), LazyReal(tier, seed), StatesPart(tier, seed)]
+    return [SmallWidth(tier, seed), FullWidth(tier, seed), LazyReal(tier, seed), StatesPart(tier, seed),
+            LongHistory(tier, seed)]
